@@ -670,6 +670,10 @@ FORM_GROUPS = (
                    'files selected by GLOB-FROM-SYMBOL', 'file contents from PATH-FROM-SYMBOL', 'path relative to PATH-SYMBOL',
                    'symbol defined by the suite from a symbol of the case', 'program of an assertion with argument from symbol',
                    'existing-file program argument from PATH-SYMBOL')),
+    ('suite-defined-symbols', ('suite text-source from a file of the sandbox', 'suite path symbol in the sandbox',
+                               'suite text-transformer symbol using a symbol of the case',
+                               'suite program symbol with argument from the case',
+                               'suite line-matcher symbol using a regex of the case')),
 )
 
 
